@@ -298,7 +298,9 @@ func wideTransfersProfile(tier Tier, oracles []explore.Oracle) *explore.Profile 
 	a0, b0, c1, s1 := uni.A0, uni.B0, uni.C1, uni.S1c
 	qs := [][]byte{two63.Bytes(), tenE18.Bytes(), new(big.Int).Sub(two64, big.NewInt(1)).Bytes(), two64.Bytes(),
 		new(big.Int).Add(two64, big.NewInt(1)).Bytes(), new(big.Int).Mul(two64, big.NewInt(2)).Bytes(),
-		append([]byte{0}, tenE18.Bytes()...), new(big.Int).Sub(two63, big.NewInt(1)).Bytes(), new(big.Int).Lsh(big.NewInt(1), 32).Bytes()}
+		append([]byte{0}, tenE18.Bytes()...), new(big.Int).Sub(two63, big.NewInt(1)).Bytes(), new(big.Int).Lsh(big.NewInt(1), 32).Bytes(),
+		// quantities whose bytes are a well-formed serialized token / metadata record
+		{0x12, 0x02, 0x00, 0x07}, {0x08, 0x01, 0x12, 0x02, 0x00, 0x07}, {0x22, 0x02, 0x08, 0x01}}
 	counts := []int{255, 256, 257, 300}
 	if tier.Thorough() {
 		counts = append(counts, 511, 512, 513, 4096)
